@@ -18,10 +18,11 @@ const (
 	caPcallYield
 	caDeclareTBC
 	caWrapPeer
+	caPcallTbcYield
 	caNumActions
 )
 
-var coActionNames = []string{"yield", "resume-peer", "resume-self", "status", "error", "close-peer", "pcall-yield", "declare-tbc", "running"}
+var coActionNames = []string{"yield", "resume-peer", "resume-self", "status", "error", "close-peer", "pcall-yield", "declare-tbc", "running", "yield-in-pcall-with-tbc"}
 
 func co(name string) Expr { return Glob("coroutine", name) }
 
@@ -47,6 +48,13 @@ func coAction(a int, x, p string, n int) []Stmt {
 		return []Stmt{&Local{Names: []string{fmt.Sprintf("c%d", n)}, Attribs: []string{"close"}, Exprs: []Expr{gridCloser(id, ckPlain)}}}
 	case caWrapPeer:
 		return []Stmt{Emit(tag("running"), C(N("select"), I(2), C(co("running"))), B("==", C(N("select"), I(1), C(co("running"))), N(x)))}
+	case caPcallTbcYield:
+		// suspended inside a protected call that has its own pending to-be-closed variable
+		id := fmt.Sprintf("%s-pc%d", x, n)
+		return []Stmt{Emit(tag("pcall-tbc-yield"), C(N("pcall"), &Func{Body: []Stmt{
+			&Local{Names: []string{"pc"}, Attribs: []string{"close"}, Exprs: []Expr{gridCloser(id, ckPlain)}},
+			&Return{Exprs: []Expr{C(co("yield"), tag("pty"))}},
+		}}))}
 	}
 	panic("bad coroutine action")
 }
